@@ -11,6 +11,8 @@ Import ListNotations.
 Open Scope Z_scope.
 
 Definition between (lo hi n : Z) : Prop := lo <= n /\ n <= hi.
+(* the Float range without bounds: from -Inf to +Inf (order keys, Lattice.InfF) *)
+Definition unbounded_float (lo hi : Z) : Prop := lo <= - InfF /\ InfF <= hi.
 
 (* the predicate of position i of a tuple: the last type repeats for all further positions *)
 Definition slot_pred (ps : list (value -> Prop)) (i : nat) : value -> Prop :=
@@ -28,7 +30,9 @@ Section Den.
     | TBoolean None => exists b, v = VBool b
     | TBoolean (Some x) => v = VBool x
     | TInteger lo hi => exists z, v = VInt z /\ between lo hi z
-    | TFloat lo hi => exists k, v = VFloat k /\ between lo hi k
+    (* a Float range holds the floats between its bounds; NaN is not ordered, it belongs to the unbounded Float only *)
+    | TFloat lo hi => (exists k, v = VFloat k /\ (between lo hi k \/ unbounded_float lo hi)) \/
+                      (v = VNaN /\ unbounded_float lo hi)
     | TNumeric => (exists z, v = VInt z) \/ (exists k, v = VFloat k) \/ v = VNaN
     | TScalar => (exists s, v = VStr s) \/ (exists z, v = VInt z) \/ (exists k, v = VFloat k) \/ v = VNaN \/
                  (exists b, v = VBool b) \/ (exists p, v = VRegexp p)
